@@ -50,7 +50,7 @@ Fixpoint crecv (inb : N) (nw : nat) (wfail : option nat) (items : list item) : l
           if match wfail with Some k => Nat.eqb k (S nw) | None => false end
           then [AWriteFail inb; AErrCall; AEvDisconnected inb; AQuit]
           else AWrite inb :: ARouteAsync i :: crecv inb (S nw) wfail rest
-      | IClose => [ARecvStreamClose; AQuit]
+      | IClose => [ARecvStreamClose; AEvDisconnected inb; AQuit]
       | IStanza _ _ => ARouteAsync i :: crecv (inb + 1) nw wfail rest
       | ISmA _ | INonza _ => ARouteAsync i :: crecv inb nw wfail rest
       end
